@@ -164,5 +164,10 @@ Definition holds_c16 (input output : val) : val :=
       let got := vN (nthv 0 output) in
       if memh got up || (N.eqb got 0 && match up with [] => true | _ => false end) then B []
       else B (str "control-connection-did-not-fail-over-to-a-known-host-that-is-up")
+  | 5%Z =>
+      if negb (vbool (nthv 0 output)) then B (str "connection-that-stopped-answering-heartbeats-not-closed-after-the-idle-timeout")
+      else if negb (vbool (nthv 1 output)) then B (str "requests-not-served-by-the-other-hosts-while-one-is-silent")
+      else if negb (vbool (nthv 2 output)) then B (str "host-not-used-again-after-it-answers-again")
+      else B []
   | _ => B []
   end.
